@@ -243,20 +243,31 @@ theorem entry_blocked_iff (s : St R) (g : Good s) (hs : s.started = true) (id : 
 
 end machine
 
-/-! ## the finding `nan-trigger`: with IEEE comparisons a NaN trigger is "never reached" yet blocks -/
+/-! ## the finding `nan-trigger` (repaired in `/repo` by `faf0578`: `IsValidSystemRule` rejects a NaN trigger)
+
+With IEEE comparisons a NaN trigger is "never reached", yet `doCheckRule` (`!(value < trigger)`) blocks on it.
+The pinned `IsValidSystemRule` (`validRulePinned`) let such a rule through: `nan_trigger_witness`. The repaired
+one (`validRule`) does not, so on the carrier *with* NaN the property holds for everything `LoadRules` can put
+in force: `blocked_iff_exists_violated_nan_carrier`. -/
 section nan
 
-/-- **witness** (faithful model, carrier with a NaN): an InboundQPS rule with a NaN trigger is accepted by
-    `IsValidSystemRule`, is not violated (no value reaches NaN), and blocks an inbound request on an idle node -/
+/-- **witness** (faithful model of the *pinned* validity check, carrier with a NaN): an InboundQPS rule with a
+    NaN trigger was accepted by the old `IsValidSystemRule`, is not violated (no value reaches NaN), and blocks
+    an inbound request on an idle node -/
 theorem nan_trigger_witness :
-    validRule nanArith ({ metric := 3, strategy := -1, trigger := none } : Rule NanNat) = true ∧
+    validRulePinned nanArith ({ metric := 3, strategy := -1, trigger := none } : Rule NanNat) = true ∧
     (check nanArith true [({ metric := 3, strategy := -1, trigger := none } : Rule NanNat)]
         { pass := 0, conc := 0, rt := 0, complete := 0, minRt := 60000, maxComplete := 0, load := some 0, cpu := some 0 }).isSome = true ∧
     ¬ violated nanArith
         ({ pass := 0, conc := 0, rt := 0, complete := 0, minRt := 60000, maxComplete := 0, load := some 0, cpu := some 0 } : View NanNat)
         ({ metric := 3, strategy := -1, trigger := none } : Rule NanNat) := by decide
 
-/-- the full-strength statement over the carrier with a NaN (false: `nan_trigger_witness`) -/
+/-- the repaired validity check refuses that rule -/
+theorem nan_trigger_rejected :
+    validRule nanArith ({ metric := 3, strategy := -1, trigger := none } : Rule NanNat) = false := by decide
+
+/-- the statement over *arbitrary* rule lists on the carrier with a NaN, i.e. what held the property back while
+    NaN-trigger rules could be in force (false: `nan_trigger_witness`) -/
 def blocked_iff_exists_violated_statement : Prop :=
   ∀ (rules flat : List (Rule NanNat)) (_ : flat.Perm rules) (v : View NanNat),
     (check nanArith true flat v).isSome ↔ ∃ r ∈ rules, violated nanArith v r
@@ -309,6 +320,21 @@ theorem blocked_iff_exists_violated_partial (rules flat : List (Rule NanNat)) (h
     exact ⟨r, hr', (key r hr').mp (by simpa using hv)⟩
   · rintro ⟨r, hr, hv⟩
     exact ⟨r, hperm.mem_iff.mpr hr, by simpa using (key r hr).mpr hv⟩
+
+/-- after the repair no rule that `LoadRules` puts in force carries a NaN trigger -/
+theorem loadRules_no_nan (rs : List (Rule NanNat)) : ∀ r ∈ loadRules nanArith rs, r.trigger ≠ none := by
+  intro r hr hn
+  have hv : validRule nanArith r = true := (List.mem_filter.mp hr).2
+  unfold validRule at hv
+  simp [nanArith, hn] at hv
+
+/-- **full strength on the carrier with NaN, repaired tree**: whatever rule list is handed to `LoadRules`
+    (NaN triggers, NaN readings included), an inbound request is rejected iff some rule in force is violated,
+    for every flattening order of the rule map -/
+theorem blocked_iff_exists_violated_nan_carrier (rs flat : List (Rule NanNat)) (hperm : flat.Perm (loadRules nanArith rs))
+    (v : View NanNat) :
+    (check nanArith true flat v).isSome ↔ ∃ r ∈ loadRules nanArith rs, violated nanArith v r :=
+  blocked_iff_exists_violated_partial (loadRules nanArith rs) flat hperm v (fun r hr _ => loadRules_no_nan rs r hr)
 
 end nan
 
